@@ -232,7 +232,7 @@ Lemma exec_update_good : forall w l cd t v t' v' push l' w',
   lookup (l_url l) (s_docs w) = Some (vgood w (l_url l) cd t' v') ->
   exec IUpdate l w = Some (push, l', w') ->
   s_lock w = false /\ l' = l /\
-  ((v < v' /\ push = [] /\ w' = set_docs (upsert (l_url l) (vgood w (l_url l) cd t' v') (s_docs w)) w) \/
+  ((v < v' /\ push = [] /\ w' = w) \/
    (v' <= v /\ push = [] /\ w' = set_docs (upsert (l_url l) (vgood w (l_url l) cd t v) (s_docs w)) w) \/
    (v' <= v /\ push = [IIdentUD; IIdentFD; IIdentFinish] /\ idof (cd_lang cd) t' <> idof (cd_lang cd) t /\
     exists e2, w' = set_lock true (set_docs (upsert (l_url l) (e_set_ident (t_ident t) e2) (s_docs w)) w) /\
@@ -241,11 +241,11 @@ Proof.
   intros w l cd t v t' v' push l' w' Ht Hv Hs Hu Hf Hk He H.
   cbn [exec] in H. destruct (s_lock w); [discriminate|]. split; [reflexivity|].
   rewrite Ht, Hv, Hs, Hu, Hf, He in H. fold (cur_dict w (l_url l)) in H.
-  unfold vgood, good_entry, rebase in H. cbn [e_base cd_lang cd_text cd_ign cd_ver] in H. rewrite dictv_eqb_refl in H.
-  cbn [e_ver stale] in H.
+  unfold vgood, good_entry in H. cbn [e_ver stale cd_lang cd_text cd_ign cd_ver] in H.
   destruct (v <? v') eqn:Ev.
   - apply Nat.ltb_lt in Ev. inversion H. split; [reflexivity|]. left. split; [exact Ev|]. split; reflexivity.
-  - apply Nat.ltb_ge in Ev. cbn [bump e_set_ver e_lang e_ident] in H.
+  - apply Nat.ltb_ge in Ev. unfold rebase in H. cbn [bump e_set_ver e_base] in H. rewrite dictv_eqb_refl in H.
+    cbn [e_set_ver e_lang e_ident] in H.
     unfold ident_final, vgood, good_entry, idof in *. cbn [cd_lang cd_text cd_ign cd_ver].
     destruct (kind (cd_lang cd)) eqn:Ek; [| |congruence].
     + inversion H. split; [reflexivity|]. right. left. split; [exact Ev|]. split; reflexivity.
@@ -264,8 +264,10 @@ Lemma exec_update_none : forall w l t push l' w',
 Proof.
   intros w l t push l' w' Ht Hl Hs Hu Hf He H.
   cbn [exec] in H. destruct (s_lock w); [discriminate|]. split; [reflexivity|].
-  rewrite Ht, Hl, Hs, Hu, Hf, He in H. unfold rebase in H. cbn [new_entry e_base] in H. rewrite dictv_eqb_refl in H.
-  destruct (l_ver l); cbn [stale e_ver bump e_set_ver e_lang new_entry] in H; inversion H; repeat split.
+  rewrite Ht, Hl, Hs, Hu, Hf, He in H. cbn [new_entry e_ver] in H.
+  assert (St : stale (l_ver l) None = false) by (destruct (l_ver l); reflexivity). rewrite St in H. unfold rebase in H.
+  destruct (l_ver l); cbn [bump e_set_ver e_base new_entry] in H; rewrite dictv_eqb_refl in H; cbn [e_set_ver e_lang new_entry] in H;
+    inversion H; repeat split.
 Qed.
 
 Lemma set_scfg_id : forall w, set_scfg (s_cfg w) w = w.
@@ -409,14 +411,15 @@ Lemma not_in_pub : ~ In IIdentFinish [IPublish].
 Proof. intros [E|[]]. discriminate E. Qed.
 
 (* the critical section is over (the handler did not enter use_ident_dict): doc_state is d *)
-Lemma upd_done : forall y hs d cd t v,
+Lemma upd_done : forall y hs d cd t v w',
   VInv y -> In hs (y_flight y) -> s_lock (y_world y) = false ->
   hclient (y_world y) (h_loc hs) cd t v ->
+  w' = set_docs d (y_world y) ->
   (forall u', u' <> hurl hs -> lookup u' d = lookup u' (s_docs (y_world y))) ->
-  dinv (set_docs d (y_world y)) (replace_h (mkh (h_id hs) [IPublish] (h_loc hs)) (y_flight y)) (hurl hs) ->
-  VInv (mksys (set_docs d (y_world y)) (replace_h (mkh (h_id hs) [IPublish] (h_loc hs)) (y_flight y)) (y_todo y) (y_next y)).
+  dinv w' (replace_h (mkh (h_id hs) [IPublish] (h_loc hs)) (y_flight y)) (hurl hs) ->
+  VInv (mksys w' (replace_h (mkh (h_id hs) [IPublish] (h_loc hs)) (y_flight y)) (y_todo y) (y_next y)).
 Proof.
-  intros y hs d cd t v V Hin L C Hd HD. apply (vinv_nonlocal y hs [IPublish] (h_loc hs) V Hin).
+  intros y hs d cd t v w' V Hin L C -> Hd HD. apply (vinv_nonlocal y hs [IPublish] (h_loc hs) V Hin).
   - intros x Hx _. exact (vi_lock y V L x Hx).
   - repeat split.
   - intros u' Hne. split; [cbn [s_docs set_docs]; apply Hd, Hne|reflexivity].
@@ -482,14 +485,14 @@ Proof.
       (* S1: the newest text is installed *)
       1,3: rewrite <- vgood_self in X1; unfold hurl in X1;
            destruct (exec_update_good _ _ cd t v _ _ _ _ _ C2 C3 B4 B5 B6 Ek X1 Ee) as (_ & -> & [(Hlt & -> & ->)|[(Hle & -> & ->)|(Hle & -> & Hid & _)]]).
-      1,4: (* an older version: nothing changes *)
-           cbn [app]; apply (upd_done y hs _ cd t v V Hin L C); [intros u' Hne; apply upsert_others, Hne|];
-           apply dinv_parser_intro with (cd := cd); [exact C1|exact Ek|]; left; split; [cbn [s_docs set_docs]; rewrite lookup_upsert_eq, vgood_self; reflexivity|];
+      1,4: (* an older version: doc_state is left alone *)
+           cbn [app]; apply (upd_done y hs (s_docs (y_world y)) cd t v _ V Hin L C (eq_sym (set_docs_id _))); [intros u' Hne; reflexivity|];
+           apply dinv_parser_intro with (cd := cd); [exact C1|exact Ek|]; left; split; [unfold hurl; rewrite X1, vgood_self; reflexivity|];
            split; [exact (no_ident_others y hs _ _ V _ NIO not_in_pub)|];
            right; eexists; split; [exact (rp_new y hs [IPublish] (h_loc hs) Hin ltac:(discriminate))|]; split; [reflexivity|left; reflexivity].
       1,3: (* the newest itself (again) *)
            assert (Ev : v = cd_ver cd) by lia; pose proof (C6 Ev) as Et; subst v t;
-           cbn [app]; apply (upd_done y hs _ cd _ _ V Hin L C); [intros u' Hne; apply upsert_others, Hne|];
+           cbn [app]; apply (upd_done y hs _ cd _ _ _ V Hin L C eq_refl); [intros u' Hne; apply upsert_others, Hne|];
            apply dinv_parser_intro with (cd := cd); [exact C1|exact Ek|]; left; split; [cbn [s_docs set_docs]; rewrite lookup_upsert_eq, vgood_self; reflexivity|];
            split; [exact (no_ident_others y hs _ _ V _ NIO not_in_pub)|];
            right; eexists; split; [exact (rp_new y hs [IPublish] (h_loc hs) Hin ltac:(discriminate))|]; split; [reflexivity|left; reflexivity].
@@ -498,14 +501,14 @@ Proof.
       (* S2: an older text is installed *)
       1,2: unfold hurl in X1;
            destruct (exec_update_good _ _ cd t v _ _ _ _ _ C2 C3 B4 B5 B6 Ek X1 Ee) as (_ & -> & [(Hlt & -> & ->)|[(Hle & -> & ->)|(Hle & -> & Hid & e2 & -> & E2)]]).
-      1,4: (* older than the installed one: nothing changes *)
-           cbn [app]; apply (upd_done y hs _ cd t v V Hin L C); [intros u' Hne; apply upsert_others, Hne|];
+      1,4: (* older than the installed one: doc_state is left alone *)
+           cbn [app]; apply (upd_done y hs (s_docs (y_world y)) cd t v _ V Hin L C (eq_sym (set_docs_id _))); [intros u' Hne; reflexivity|];
            apply dinv_parser_intro with (cd := cd); [exact C1|exact Ek|]; right; left; exists t', v';
-           split; [cbn [s_docs set_docs]; rewrite lookup_upsert_eq; reflexivity|]; split; [exact X2|];
+           split; [exact X1|]; split; [exact X2|];
            split; [exact (no_ident_others y hs _ _ V _ NIO not_in_pub)|];
            apply (pending_replace y hs _ _ V Hin _ _ X4); left; unfold hver; rewrite C3; intro E; inversion E; lia.
       1,3: (* installs its text *)
-           cbn [app]; apply (upd_done y hs _ cd t v V Hin L C); [intros u' Hne; apply upsert_others, Hne|];
+           cbn [app]; apply (upd_done y hs _ cd t v _ V Hin L C eq_refl); [intros u' Hne; apply upsert_others, Hne|];
            apply dinv_parser_intro with (cd := cd); [exact C1|exact Ek|];
            destruct (Nat.eq_dec v (cd_ver cd)) as [Ev|Ev];
            [ pose proof (C6 Ev) as Et; subst v t; left;
@@ -531,7 +534,7 @@ Proof.
       (* a document without parser: the entry is inserted and removed again *)
       apply (dinv_noparser _ _ _ cd C1 Ek') in D. destruct D as [D1 D2]. unfold hurl in D1.
       destruct (exec_update_none _ _ t _ _ _ C2 C4 B4 B5 B6 D1 Ee) as (_ & -> & -> & ->). cbn [app].
-      apply (upd_done y hs _ cd t v V Hin L C).
+      apply (upd_done y hs _ cd t v _ V Hin L C eq_refl).
       * intros u' Hne. apply lookup_remove_neq. apply url_eqb_neq, Hne.
       * apply dinv_noparser_intro with (cd := cd); [exact C1|exact Ek'|]. split; [cbn [s_docs set_docs]; apply lookup_remove_eq|exact D2].
   - (* use_ident_dict *)
